@@ -66,7 +66,8 @@ def spec_oracle(table, n, res):
 def sim_clause(sc, gates, fix_counts, cls, labels, instrs, meas, psi0):
     """noise-free run, fix_counts, compared with Qiskit's own little-endian probabilities of the measured qubits (classical bit k = meas[k])"""
     import numpy as np
-    _, res, _ = sc.run_spy(cls, labels, instrs, len(labels), sc.dev_plain(len(labels)), psi0, gates=gates, shots=1)
+    nphys = max(labels) + 1
+    _, res, _ = sc.run_spy(cls, labels, instrs, nphys, sc.dev_plain(nphys), psi0, gates=gates, shots=1)
     ideal = sc.qiskit_marginals(labels, instrs, meas, psi0)      # key character k = bit of meas[k] (classical bit k first)
     fc = fix_counts(dict(res), len(meas))
     want = [format(i, "b").zfill(len(meas)) for i in range(2 ** len(meas))]
@@ -212,6 +213,21 @@ def main(argv):
                 if why and sim_fail is None:
                     sim_fail = {"family": "simulator", "cls": cls, "labels": labels, "instrs": [[a, list(b), c] for a, b, c in instrs], "meas": meas,
                                 "psi0": [[float(z.real), float(z.imag)] for z in psi0], "why": why}
+        # the same simulator object, the same measure instructions (physical qubit -> classical bit), but another set of used qubits:
+        # the measured qubits sit at other positions of the register
+        for labs_a, labs_b in (([0, 1, 2], [1, 2, 4]), ([0, 2, 3], [2, 3, 5]), ([1, 3], [0, 1, 3]), ([0, 1, 2, 3], [1, 2, 3, 6])):
+            common = [q for q in labs_a if q in labs_b]
+            meas_order = [int(q) for q in nrng.permutation(common)]
+            for labels in (labs_a, labs_b, labs_a):
+                body = sc.rand_circuit(nrng, labels, int(nrng.integers(3, 9)), adjacent=False)
+                instrs, meas = sc.add_measures(nrng, body, labels, subset=meas_order)
+                psi0 = nrng.normal(size=2 ** len(labels)) + 1j * nrng.normal(size=2 ** len(labels)); psi0 /= np.linalg.norm(psi0)
+                ck.count("simulator_result_to_qiskit_keys", 1, key=("BinaryCircuit", tuple(labels), tuple(meas), repr(instrs)),
+                         sample={"cls": "BinaryCircuit", "labels": labels, "measured_in_order": meas})
+                why = sim_clause(sc, noise_free_gates, fix_counts, "BinaryCircuit", labels, instrs, meas, psi0)
+                if why and sim_fail is None:
+                    sim_fail = {"family": "simulator", "cls": "BinaryCircuit", "labels": labels, "instrs": [[a, list(b), c] for a, b, c in instrs], "meas": meas,
+                                "psi0": [[float(z.real), float(z.imag)] for z in psi0], "why": why + " (after a run of the same simulator with the same measure instructions on other qubits)"}
     except Exception as e:  # noqa
         sim_fail = {"family": "simulator", "why": "the simulator clause could not be run: %s: %s" % (type(e).__name__, str(e)[:200])}
     if sim_fail and not oracle_fail:
